@@ -124,7 +124,9 @@ func DrawTx(t *rapid.T, c TxCtx) (*types.Transaction, string) {
 		extra = uint64(rapid.SampledFrom([]int{0, 1, 700, 5000, 25000, 60000, 200000}).Draw(t, "gasextra"))
 	)
 	addr := func(a common.Address) *common.Address { return &a }
-	smallValue := func() *big.Int { return big.NewInt(int64(rapid.SampledFrom([]int{0, 0, 1, 1000, 1_000_000}).Draw(t, "value"))) }
+	smallValue := func() *big.Int {
+		return big.NewInt(int64(rapid.SampledFrom([]int{0, 0, 1, 1000, 1_000_000}).Draw(t, "value")))
+	}
 	switch kind {
 	case "transfer":
 		to, value = addr(rapid.SampledFrom(keys).Draw(t, "rcpt").Addr), smallValue()
